@@ -874,7 +874,8 @@ def _make_ffi_library(ffi, libname, flags):
             return
         #
         for key, (tp, _) in ffi._parser._declarations.items():
-            if not isinstance(tp, model.EnumType):
+            if (not isinstance(tp, model.EnumType) or
+                    key.startswith(('variable ', 'constant '))):
                 tag, name = key.split(' ', 1)
                 if tag == 'function':
                     accessors[name] = accessor_function
